@@ -1614,7 +1614,12 @@ def take(arr, indices, axis=None, **kw):
 
 
 def equal(a, b):
-    return SymBool(None)
+    """jnp.equal of two real arrays: decided only when the kernel proves them identical (then all-true)"""
+    W.count("equal")
+    ok, _ = W._equal(_lift(a), _lift(b))
+    if ok:
+        return BoolConst(True, "operands are identical for all inputs")
+    raise ShimUnsupported("jnp.equal of arrays that are not provably identical")
 
 
 def setxor1d(a, b):
